@@ -83,12 +83,18 @@ def build_files(case):
                 extra += ["", f"def collect_shared_{i}(items):", "    result = []", "    for it in items:", "        result.append(it)", "    return result"]
             else:
                 extra += ["", f"def render_shared_{i}(items):", '    result = ""', "    for it in items:", "        result += str(it)", "    return result"]
+        if i % 5 == 2:
+            files[f"src/notes_{i}.txt"] = f"scratch note {i}\n"
+        if i % 7 == 3:
+            files[f"src/sub/table_{i}.csv"] = "a,b\n1,2\n"
         sub = "src/sub/" if i % 4 == 3 else "src/"  # every fourth file lives one directory deeper (recursive vs --no-recursive)
         files[f"{sub}f{i:02d}{seeds.EXT[lang]}"] = text + ("\n".join(extra) + "\n" if extra else "")
     return files
 
 
-CONFIG = {"dry": {"enabled": True, "min_duplicate_lines": 3}}
+# non-code files carry findings too (file-placement is language-agnostic): they must survive the parallel path
+CONFIG = {"dry": {"enabled": True, "min_duplicate_lines": 3},
+          "file-placement": {"global_deny": [{"pattern": r".*notes_[0-9]+\.txt$", "reason": "no scratch notes"}, {"pattern": r".*\.csv$", "reason": "no data files"}]}}
 
 
 def record(v):
